@@ -9,13 +9,13 @@ NSHARD = NCPU
 
 # lens: the observable fields a property constrains (a divergence elsewhere belongs to another property)
 PROPS = {
-    "C01": dict(families=["scalar-s", "scalar-n", "setvalue"], lens={"vals", "called", "err", "seterr", "agree"}, rand=("C01", 6000, 150000),
+    "C01": dict(families=["scalar-s", "scalar-n", "setvalue", "late-wrapper"], lens={"vals", "called", "err", "seterr", "agree"}, rand=("C01", 6000, 150000),
                 preds=["ScalarExact", "FlagSemantics", "CalledExact"]),
     "C02": dict(families=["multi-ss", "multi-is", "multi-fs", "multi-sm", "setvalue"], lens={"vals", "err", "rest", "seterr"}, rand=("C02", 6000, 150000),
                 preds=["IntakeCount", "StoredInOrder", "MapStored"]),
     "C03": dict(families=["conserve", "conserve-n", "deep-ro", "wrapper"], lens={"rest", "aliased"}, rand=("C03", 6000, 150000),
                 preds=["Conservation", "UnknownNeverDropped"]),
-    "C04": dict(families=["term", "scalar-s"], lens={"rest", "vals", "called", "err"}, rand=("C04", 6000, 150000),
+    "C04": dict(families=["term", "scalar-s"], lens={"rest", "vals", "called", "err", "aliased"}, rand=("C04", 6000, 150000),
                 preds=["TerminatorRoles", "Frozen (action property)"]),
     "C05": dict(families=["abbrev", "late-wrapper"], lens={"vals", "called", "as", "err"}, rand=("C05", 6000, 400000),
                 preds=["UniquePrefixEqFull", "ExactWins", "AmbiguousRejectedAll"]),
@@ -35,11 +35,11 @@ PROPS = {
                 preds=["CandidatesExact", "OfferedAccepted"]),
     "C18": dict(families=["helpdoc"], lens={"help", "helpcomplete", "helpof"}, rand=("C18", 2500, 400000), relational=False,
                 preds=["HelpDocComplete (evaluated on the parsed real text)", "HelpDocOf equality", "three paths same text"]),
-    "C19": dict(families=["modes", "wrapper", "complete-eq", "tree"], lens={"panic", "hang", "rest", "exits"}, fuzz=(16000, 800000), level="exploration",
+    "C19": dict(families=["modes", "wrapper", "complete-eq", "tree", "helpdoc"], lens={"panic", "hang", "rest", "exits"}, fuzz=(16000, 800000), level="exploration",
                 preds=["NotStuck", "VariantDecreases (action property)", "ErrImpliesNilRest"]),
     "C20": dict(families=["order", "complete", "complete-eq", "shadow"], lens={"nondet", "err", "derr", "comps", "warn", "aliased"}, rand=[("C20", 4000, 300000), ("C20c", 2000, 200000)],
                 repeat=6, twice=True, preds=["FixedRule"]),
-    "C09": dict(families=["term", "conserve", "inherit", "deep-ro", "conserve-n"], lens={"rest", "vals", "called"}, rand=("C09", 6000, 150000),
+    "C09": dict(families=["term", "conserve", "inherit", "deep-ro", "conserve-n"], lens={"rest", "vals", "called", "aliased"}, rand=("C09", 6000, 150000),
                 preds=["StopRoles", "PrefixAsUnordered", "NoStopAsUnordered", "Frozen (action property)"]),
 }
 
